@@ -1,2 +1,5 @@
 import TvNetTable.Model.Table
 import TvNetTable.Model.Replay17
+import TvNetTable.Model.TableSpec
+import TvNetTable.Model.Rules
+import TvNetTable.Model.Replay19
